@@ -692,6 +692,53 @@ class ShapeGen:
         return units, [layout.index(q) for q in done]
 
 
+def package_cycle(units: List[Unit]) -> bool:
+    """is the import graph cyclic once the packages ABOVE an imported module are counted as imported too (Python initialises
+    them first; since /repo 0ba6723 pydoctor analyses them first as well)? Such a project is importable only in some import
+    orders: outside the property's quantifier (acyclic projects)."""
+    names = {u.qname: u for u in units}
+    edges: Dict[str, set] = {u.qname: set() for u in units}
+
+    def add(src: str, target: str) -> None:
+        parts = target.split(".")
+        for i in range(1, len(parts) + 1):
+            t = ".".join(parts[:i])
+            if t in names and t != src:
+                edges[src].add(t)
+
+    for u in units:
+        try:
+            tree = ast.parse(u.source)
+        except SyntaxError:
+            continue
+        pkg = u.qname if u.is_package else u.qname.rpartition(".")[0]
+        for node in ast.walk(tree):
+            if isinstance(node, ast.Import):
+                for al in node.names:
+                    add(u.qname, al.name)
+            elif isinstance(node, ast.ImportFrom):
+                base = node.module or ""
+                if node.level:
+                    up = pkg.split(".") if pkg else []
+                    up = up[:len(up) - (node.level - 1)] if node.level - 1 <= len(up) else []
+                    base = ".".join(up + ([node.module] if node.module else []))
+                if base:
+                    add(u.qname, base)
+                    for al in node.names:
+                        if base + "." + al.name in names:
+                            add(u.qname, base + "." + al.name)
+    state: Dict[str, int] = {}
+
+    def dfs(v: str) -> bool:
+        state[v] = 1
+        for w in edges[v]:
+            if state.get(w) == 1 or (w not in state and dfs(w)):
+                return True
+        state[v] = 2
+        return False
+    return any(v not in state and dfs(v) for v in edges)
+
+
 def run_reexport_sound(ctx: Ctx) -> None:
     """item 3 (`noReexport` is not lifted as a theorem): the STATEMENT `pydoctor resolves a name to a, Python binds it to b
     => a = finalLoc b` (identity by definition site, relocated to the re-exporter) and its order independence, searched for a
@@ -773,7 +820,10 @@ def run_reexport_sound(ctx: Ctx) -> None:
             b_impl.append("ok bad=%s | %s | %s" % ("true" if dup else "false", pd_dump(system), " ".join(qa)))
             b_pay.append({"units": src, "order": order})
             answers.append(ans)
-        for a in answers[1:]:
+        if package_cycle(units):
+            # importable only in some import orders (a package above an imported module imports the importer back)
+            ctx.count("rsound:shape:package-cycle")
+        for a in (answers[1:] if not package_cycle(units) else []):
             if a != answers[0]:
                 diffs = [(x, y) for x, y in zip(answers[0], a) if x != y]
                 two = [d for d in diffs if d[0][2] is not None and d[1][2] is not None]
